@@ -216,6 +216,8 @@ def run(prog, chk):
             saved = {d.e['id'] for d in g.nodes if d.kind == 'decl' and SX.is_this_member(SX.strip(d.e.get('init')), ctx)}
             switches = [n for n, l, r, op in g.writes() if SX.is_this_member(SX.strip(l), ctx) and not
                         (SX.is_node(SX.strip(r)) and SX.strip(r).get('k') == 'ref' and SX.strip(r).get('id') in saved) and SX.strip(r).get('k') != 'nullptr']
+            from ..kguard import virtual_writes as _vw
+            switches += [n for n, m_, v_, rst in _vw(prog, f, g) if m_ == ctx]
             if not switches:
                 continue
             evals = [cn for cn in g.calls(lambda e: e['k'] == 'mcall' and SX.short(e['callee']) in ('exec', 'eval') and e['callee'].startswith(R.ev['name']))]
@@ -245,20 +247,30 @@ def run(prog, chk):
     ctx_members = [f_['name'] for f_ in R.ev['fields'] if (f_['type'].endswith('RuntimeClass *') and 'ctx' in f_['name'].lower()) or
                    (f_['type'] == 'bool' and f_['name'].lower().startswith('m_in'))]
     nsr = 0
+    from ..kguard import Guards
+    guards_all = set(Guards(prog).recs)
     for f in evfns:
         if f.kind == 'lambda' or f.short in ('execute',):
             continue
         g = None
         for M_ in ctx_members:
             ws = [n for n in SX.walk(f.body, into_lambdas=False) if (lambda w: w and SX.is_this_member(SX.strip(w[0]), M_))(SX.write_target(n))]
-            if not ws:
+            if not ws and not any(v['k'] == 'var' and SX.is_node(v.get('init')) and SX.strip(v['init']).get('k') == 'construct' and SX.strip(v['init']).get('type') in guards_all
+                                  for v in SX.walk(f.body, into_lambdas=False)):
                 continue
             g = g or prog.cfg(f)
+            from ..kguard import virtual_writes
+            vws = [(n, v_, rst) for n, m_, v_, rst in virtual_writes(prog, f, g) if m_ == M_]
             saves = [d for d in g.nodes if d.kind == 'decl' and SX.is_this_member(SX.strip(d.e.get('init')), M_)]
             saved_ids = {d.e['id'] for d in saves}
             writes = [(n, SX.strip(r)) for n, l, r, op in g.writes() if SX.is_this_member(SX.strip(l), M_)]
             sets = [n for n, r in writes if not (SX.is_node(r) and r.get('k') == 'ref' and r.get('id') in saved_ids)]
             restores = [n for n, r in writes if SX.is_node(r) and r.get('k') == 'ref' and r.get('id') in saved_ids]
+            if not sets and vws:
+                nsr += 1
+                chk.ob('R09.2', f, vws[0][0].ln or f.ln, all(rst for _, _, rst in vws), '%s changes %s under a scope guard whose destructor restores it' % (f.short, M_),
+                       key='ctx-restore:%s:%s' % (f.short, M_))
+                continue
             if not sets:
                 continue
             nsr += 1
